@@ -35,7 +35,7 @@ META = {
 
 def tasks(tier, seed):
     global CASE_TIMEOUT
-    CASE_TIMEOUT = 2.5 if tier == "quick" else 15.0
+    CASE_TIMEOUT = 2.5 if tier == "quick" else 6.0
     n = 2000 if tier == "quick" else 40000
     shards = 48 if tier == "quick" else 192
     t = [(MOD, "hyp", (n // shards, seed * 1_000_003 + i, tier)) for i in range(shards)]
